@@ -11,8 +11,11 @@ import (
 	"fmt"
 	"os"
 	"path"
+	"path/filepath"
+	"sort"
 	"strings"
 	"sync"
+	"sync/atomic"
 
 	"github.com/martian-lang/martian/martian/core"
 	"github.com/martian-lang/martian/martian/syntax"
@@ -40,6 +43,21 @@ type result struct {
 	SecondHeld    string `json:"second_held"`     // write attach while the re-attached mrp holds the lock
 	EditedRO      string `json:"edited_ro"`       // read-only attach with the edited definitions while the first mrp lives
 	LockedAfterRO string `json:"locked_after_ro"` // write attach after that
+	// what an accepted read-only instance did to the pipestance directory while it ran its
+	// loop next to the owner: files that appeared or changed, jobs it handed to its job manager
+	InspectorWrote []string `json:"inspector_wrote"`
+}
+
+// snapshot of a directory tree: path -> size and modification time
+func snapshot(dir string) map[string]string {
+	m := map[string]string{}
+	filepath.Walk(dir, func(p string, info os.FileInfo, err error) error {
+		if err == nil {
+			m[p] = fmt.Sprintf("%d %d %v", info.Size(), info.ModTime().UnixNano(), info.Mode())
+		}
+		return nil
+	})
+	return m
 }
 
 type devNull struct{}
@@ -109,8 +127,33 @@ func one(work string, pr *pair) result {
 			res.LockedRW = "refused: " + firstLine(err.Error())
 		}
 	}
-	if _, err := newRt().ReattachToPipestance("ps", psdir, pr.InvA, invPath, []string{mroDir}, "v", map[string]string{}, true, true, ctx); err == nil {
+	var submitted int32
+	roRt, err := core.VerifNewRuntime(&opts, 4, 4, "/nonexistent/mrjob", "/nonexistent/adapters", func(*core.VerifJob) { atomic.AddInt32(&submitted, 1) })
+	if err != nil {
+		panic(err)
+	}
+	if pro, err := roRt.ReattachToPipestance("ps", psdir, pr.InvA, invPath, []string{mroDir}, "v", map[string]string{}, true, true, ctx); err == nil {
 		res.LockedRO = "accepted"
+		// the inspector runs its loop (as mrp --inspect does) while the owner holds the
+		// pipestance: it must not write anything
+		before := snapshot(psdir)
+		pro.LoadMetadata(ctx)
+		for i := 0; i < 4; i++ {
+			pro.RefreshState(ctx)
+			pro.GetState(ctx)
+			pro.CheckHeartbeats(ctx)
+			pro.StepNodes(ctx)
+		}
+		after := snapshot(psdir)
+		for p_, v := range after {
+			if before[p_] != v && len(res.InspectorWrote) < 8 {
+				res.InspectorWrote = append(res.InspectorWrote, strings.TrimPrefix(p_, psdir+"/"))
+			}
+		}
+		sort.Strings(res.InspectorWrote)
+		if n := atomic.LoadInt32(&submitted); n > 0 {
+			res.InspectorWrote = append(res.InspectorWrote, fmt.Sprintf("%d job(s) handed to the job manager", n))
+		}
 	} else {
 		res.LockedRO = "refused: " + firstLine(err.Error())
 	}
